@@ -150,6 +150,36 @@ Section Lock.
       + constructor; [|constructor]. cbn [Q]. intros q Pq. now apply (root_par p WF) in Pq.
       + intros x [].
   Qed.
+
+  (* the same over runs with updates between the ticks that change no lock / ended / completed / started flag, keep the node
+     table's length and leave the interrupt map alone or add fresh generators of parentless roots (injected snippets) *)
+  Theorem lock_always_upd (upd : Type) (apply : S -> upd -> S) :
+    (forall s u m, lk (st (apply s u) m) = lk (st s m)) ->
+    (forall s u m, started (st (apply s u) m) = started (st s m)) ->
+    (forall s u, length (nodes (apply s u)) = length (nodes s)) ->
+    (forall s u x, In x (ints (apply s u)) -> In x (ints s) \/ exists r, n_parent (nd p r) = None /\ snd (snd x) = [FVisit r]) ->
+    forall ts, Forall T (gstates p upd apply [FVisit 0] (init p) 0 ts).
+  Proof.
+    intros Ek Es El Ei ts. apply (grun_G p Q T R R_refl R_trans Q_stable step_G).
+    - intros s n. apply same_R; [apply l_set_ns|apply lk_fail].
+    - intros s n. apply same_T; [apply l_set_ns|apply lk_fail|apply started_fail].
+    - intros s i sr. now apply same_R.
+    - intros s i sr. now apply same_T.
+    - intros s n. split; [apply l_mark_completed|]. intros m _. apply lk_cmd_le.
+    - intros s n [L H]. split; [now rewrite l_mark_completed|]. intros c q Pq Pc Sc P W. rewrite started_cmd in Sc.
+      apply lk_cmd_le. now apply (H c q).
+    - intros s. now apply same_R.
+    - intros s. now apply same_T.
+    - intros s u. apply same_R; [apply El|apply Ek].
+    - intros s u. apply same_T; [apply El|apply Ek|apply Es].
+    - intros s u _ O x Hx. destruct (Ei s u x Hx) as [Hin|[r [Pr Ex]]].
+      + eapply Forall_impl; [|exact (O x Hin)]. intros a. apply Q_stable. apply same_R; [apply El|apply Ek].
+      + rewrite Ex. constructor; [|constructor]. cbn [Q]. intros q Pq. unfold par in Pq. congruence.
+    - split; [|split].
+      + split; [unfold init; cbn [nodes]; apply repeat_length|]. intros c q _ _ Sc. now rewrite init_started in Sc.
+      + constructor; [|constructor]. cbn [Q]. intros q Pq. now apply (root_par p WF) in Pq.
+      + intros x [].
+  Qed.
 End Lock.
 
 Theorem block_body_runs_only_with_the_lock p ts : wf_b p = true ->
